@@ -670,6 +670,47 @@ def replay_C08(ctx):
     return check_C08(ctx)
 
 
+def check_C19(ctx):
+    def interpret(ctx, defs, summ):
+        found = False
+        bad = re.sub(r"\s+", " ", defs.get("c19_bad", ""))
+        items = re.findall(r'\((\d+), \[([^\]]*)\]\)', bad)
+        nobs = int(re.sub(r"\D", "", defs.get("n_observed", "0").split(":")[0]) or 0)
+        ctx.coverage["traces_validated_against_impl"] = nobs - len(items)
+        ctx.coverage["disagreements"] = {"observation_vs_model": len(items)}
+        for (i, msgs) in items[:10]:
+            first = re.findall(r'"([^"]*)"', msgs)
+            what = first[0] if first else "?"
+            found = True
+            ctx.violation("C19:%s" % what.split(":")[0][:40], "the real transport differs from the model, whose runs the theorems characterise: %s" % what,
+                          {"kind": "observation", "index": i, "complaints": first, "see": "observation %d in run/C19/observed.v (inputs: script, recipients, payload; outputs: signer calls, client requests, result)" % int(i)})
+        # the race detector: several batches and dereferences on one transport value
+        renv = dict(GOENV)
+        renv["CGO_ENABLED"] = "1"
+        rc, out, dt = sh(["go", "build", "-race", "-o", "../bin/harness-race", "."], cwd=os.path.join(ROOT, "tools", "harness"), timeout=900, env=renv)
+        if rc == 0:
+            rdir = os.path.join(ctx.rundir, "race")
+            os.makedirs(rdir, exist_ok=True)
+            rc2, out2, dt2 = sh([os.path.join(ROOT, "tools", "bin", "harness-race"), "c19", "-out", rdir, "-seed", str(ctx.seed), "-tier", "quick"], timeout=1800)
+            ctx.note("race-detector run rc=%d (%.1fs)" % (rc2, dt2))
+            ctx.coverage["race_detector"] = {"ran": True, "data_race_reports": out2.count("WARNING: DATA RACE")}
+            if "WARNING: DATA RACE" in out2 or rc2 != 0:
+                found = True
+                ctx.violation("C19:data-race", "the race detector reports a data race in the transport (or the run failed under it)", {"kind": "race", "output": out2[-4000:]})
+        else:
+            ctx.coverage["race_detector"] = {"ran": False, "why": out[-300:]}
+        return found
+    return generic_table_check(ctx, "C19", "Properties/C19.v", ["c19"], "C19Cases.v",
+                               ["Transport/Model.vo", "Transport/Check.vo"],
+                               ["Transport/Model.v (Dereference, Deliver, BatchDeliver over clock / signer / client events), Transport/Check.v (scripted environment and comparison)",
+                                "modelled, not verified: goroutines, WaitGroup, channel and the two mutexes of BatchDeliver are modelled as one Deliver per recipient finishing in any order (theorem C19_batch_order); freedom from data races is a property of the Go runtime execution and is only exercised with the race detector; net/http's treatment of the request after Do, and the cryptography of httpsig (exercised with real RSA / HMAC signers and the httpsig verifier)"],
+                               interpret)
+
+
+def replay_C19(ctx):
+    return check_C19(ctx)
+
+
 def check_C03(ctx):
     def classify(name, fields, run):
         return ("C03:%s:%s" % (run["family"].split(":")[0], "payload" if "payload" in fields[1] else "body"), "%s (faults %s): %s" % (run["family"], run["faults"], fields[1]))
